@@ -269,6 +269,7 @@ func TestVerif_C33(t *testing.T) {
 	run.Cases("sequential", nSeq, func(i int, rng *verifkit.Rand) { c33sequential(run, rng, i < 2) })
 	nCon := run.N(2500, 120000)
 	run.Cases("concurrent", nCon, func(i int, rng *verifkit.Rand) { c33concurrent(run, rng, i < 2) })
+	run.Cases("hammer", run.N(10, 300), func(i int, rng *verifkit.Rand) { c33hammer(run, rng, i < 1) })
 }
 
 func c33sequential(run *verifkit.Run, rng *verifkit.Rand, sample bool) {
@@ -426,5 +427,94 @@ func c33concurrent(run *verifkit.Run, rng *verifkit.Rand, sample bool) {
 		}
 		sort.Slice(flat, func(i, j int) bool { return flat[i].Call < flat[j].Call })
 		run.Sample(map[string]any{"kind": "concurrent", "goroutines": g, "history": flat})
+	}
+}
+
+// c33hammer: conservation per counter under sustained concurrency. K goroutines each own one
+// counter name and call Increment on it N times (plus, in some cases, one shared counter that
+// every goroutine also bumps, and Count(name, 1) mixed in); when all have returned, Get of each
+// counter must equal exactly what was recorded into it. Unique owner per name => the expected
+// value is known without any history checking.
+func c33hammer(run *verifkit.Run, rng *verifkit.Rand, sample bool) {
+	m := c33newStore()
+	k := rng.Range(2, 6)
+	n := rng.Range(20000, 60000)
+	registered := rng.Chance(0.7)
+	shared := rng.Chance(0.5)
+	mixCount := rng.Chance(0.3)
+	names := make([]string, k)
+	for i := range names {
+		names[i] = fmt.Sprintf("verif_hammer_%d", i)
+		if registered {
+			c33apply(m, c33in{Kind: c33Register, Name: names[i], Typ: c33Counter})
+		}
+	}
+	const sharedName = "verif_hammer_shared"
+	if shared && registered {
+		c33apply(m, c33in{Kind: c33Register, Name: sharedName, Typ: c33Counter})
+	}
+	sharedEvery := rng.Range(2, 50)
+	start := make(chan struct{})
+	var wg sync.WaitGroup
+	sharedTotals := make([]int64, k)
+	for g := 0; g < k; g++ {
+		wg.Add(1)
+		go func(g int) {
+			defer wg.Done()
+			<-start
+			own := names[g]
+			for i := 0; i < n; i++ {
+				if mixCount && i%7 == 3 {
+					m.Count(own, 1)
+				} else {
+					m.Increment(own)
+				}
+				if shared && i%sharedEvery == 0 {
+					m.Increment(sharedName)
+					sharedTotals[g]++
+				}
+			}
+		}(g)
+	}
+	close(start)
+	wg.Wait()
+	run.Count("hammer_increments", int64(k*n))
+	got := map[string]float64{}
+	var total, want float64
+	wrong := 0
+	for _, nm := range names {
+		v, _ := m.Get(nm)
+		got[nm] = v
+		total += v
+		want += float64(n)
+		if v != float64(n) {
+			wrong++
+		}
+	}
+	var wantShared float64
+	if shared {
+		for _, x := range sharedTotals {
+			wantShared += float64(x)
+		}
+		v, _ := m.Get(sharedName)
+		got[sharedName] = v
+		total += v
+		want += wantShared
+		if v != wantShared {
+			wrong++
+		}
+	}
+	if wrong > 0 {
+		sig := "C33/counter/concurrent-increment/per-counter-total-wrong"
+		what := fmt.Sprintf("%d goroutines incremented their own counter %d times each; %d counters read back another value", k, n, wrong)
+		if total == want {
+			sig += "/grand-total-conserved"
+			what += " while the sum over all counters is right (increments were credited to another counter)"
+		}
+		run.Violation(sig, what, map[string]any{"goroutines": k, "increments_per_counter": n, "registered_first": registered, "shared_counter_expected": wantShared, "read_back": got})
+	}
+	run.Nontrivial(fmt.Sprintf("hammer k%d reg%v sh%v mix%v", k, registered, shared, mixCount))
+	if sample {
+		run.Sample(map[string]any{"kind": "hammer", "goroutines": k, "increments_per_counter": n, "read_back": got})
 	}
 }
